@@ -574,5 +574,6 @@ def _convert_object_to_annotation(obj: Any, parent: Module | Class) -> str | Exp
     try:
         annotation_node = compile(annotation, mode="eval", filename="<>", flags=ast.PyCF_ONLY_AST, optimize=2)
     except SyntaxError:
-        return obj
+        # The representation is not valid Python code (`<object at 0x...>`): keep it as a string.
+        return annotation
     return safe_get_annotation(annotation_node.body, parent=parent)  # type: ignore[attr-defined]
